@@ -32,6 +32,10 @@ def mode_contract(mode):
 
 def new_executor(ctx, prog, mode=None, contracts=None, merge_fns=(), unwind=40):
     ex = Executor(prog, unwind=unwind, merge_fns=merge_fns)
+    # the branch-free log10 is bit-level code: it is proved once, bit-precisely, by the Kani harness i128_magnitude_all (C15)
+    # and used through its contract everywhere else
+    from . import kernels as _K
+    ex.contracts["i128_magnitude"] = _K.c_magnitude
     if mode is not None:
         ex.contracts["default"] = mode_contract(mode)
     if contracts:
